@@ -152,6 +152,8 @@ func runC06(r *Run) {
 			return
 		}
 		c, peer := rc.C, rc.Peer
+		// (the peer's frames, its Close frame included, may arrive in pieces)
+		rc.Lib.In().RChunk = t.Weighted(4, 1, 2, 2, 2)
 		sig = fmt.Sprintf("scen=0,valid=%v,echo=%d", valid, echoMode)
 		r.Class = fmt.Sprintf("%s/code%s/r%d/rd%d", sig, codeClass(code), len(reason), readerMode%2)
 		var closeErr error
@@ -297,6 +299,7 @@ func runC06(r *Run) {
 			return
 		}
 		c, peer := rc.C, rc.Peer
+		rc.Lib.In().RChunk = t.Weighted(4, 1, 2, 2, 2)
 		sig = fmt.Sprintf("scen=1,reader=%d", readerMode)
 		r.Class = fmt.Sprintf("%s/code%s/r%d/n%d", sig, codeClass(code), len(reason), nBefore)
 		var stream []byte
@@ -386,11 +389,13 @@ func runC06(r *Run) {
 		if compress {
 			o.CMode, o.SMode = websocket.CompressionContextTakeover, websocket.CompressionNoContextTakeover
 		}
-		cli, srv, _, _, err := r.LibPair("p0", o)
+		cli, srv, pce, pse, err := r.LibPair("p0", o)
 		if err != nil {
 			r.Violate("handshake-failed", sig, "%v", err)
 			return
 		}
+		pce.In().RChunk = t.Weighted(4, 1, 2, 2, 2)
+		pse.In().RChunk = t.Weighted(4, 1, 2, 2, 2)
 		a, b := cli, srv
 		if role == 1 {
 			a, b = srv, cli
